@@ -88,7 +88,7 @@ def run(ctx):
     ctx.ob("kernel-invoke|anchor", found, f"Kernel invoke body constructing OrphanedNodes found among {inv}")
     ad = [x for x in F.fns if x.endswith("KernelCallbackObject>::auto_drop") and "system_callback::System" in x]
     if len(ad) == 1:
-        cs = sorted({c.rsplit("::", 1)[1] for x in ctx.bodies_of(ad[0]) for c in x.fn.consts if c.endswith("_BLUEPRINT")})
+        cs = sorted({c.rsplit("::", 1)[-1] for x in ctx.bodies_of(ad[0]) for c in x.fn.consts if c.endswith("_BLUEPRINT")})
         ctx.ob("auto_drop|only-proofs", cs == ["FUNGIBLE_PROOF_BLUEPRINT", "NON_FUNGIBLE_PROOF_BLUEPRINT"], f"blueprints auto-dropped: {cs}", F.fns[ad[0]].loc())
     else:
         ctx.ob("anchor|auto_drop", False, f"candidates: {ad}")
